@@ -3,7 +3,7 @@ import json
 import os
 import time
 
-from common import (HarnessError, Report, cargo_build, ddmin, pmap, run, scratch, seed, WORK)
+from common import (run_dir, HarnessError, Report, cargo_build, ddmin, pmap, run, scratch, seed, WORK)
 
 
 def parse_log(path):
@@ -28,7 +28,7 @@ def parse_log(path):
 
 
 def sim_exec(binary, obj, verbose=False):
-    d = os.path.join(WORK, "run", "exec")
+    d = os.path.join(run_dir(), "exec")
     os.makedirs(d, exist_ok=True)
     path = os.path.join(d, "reg_%d_%d.json" % (os.getpid(), id(obj) % 100000))
     with open(path, "w") as f:
